@@ -58,9 +58,11 @@ Theorem constraint_matches_doc_stride_range_no_padding : forall sw sh padding if
   constraint_stride_width_no_upper_limit sw sh ifm ofm && doc_stride_range_no_padding sw padding.
 Proof. exact ConstraintsProofs.constraint_matches_doc_stride_range_no_padding. Qed.
 Theorem constraint_matches_doc_resize : forall (ifm ofm : list Z) (align : bool),
-  (if align then py_nth ifm 1 <> 1 /\ py_nth ifm 2 <> 1 else py_nth ifm 1 <> 0 /\ py_nth ifm 2 <> 0) ->
+  (align = false -> py_nth ifm 1 <> 0) ->
   constraint_resize ifm ofm align = Some (doc_resize ifm ofm align).
 Proof. exact ConstraintsProofs.constraint_matches_doc_resize. Qed.
+Theorem constraint_resize_total : forall ifm ofm align, 1 <= py_nth ifm 1 -> constraint_resize ifm ofm align <> None.
+Proof. exact ConstraintsProofs.constraint_resize_total. Qed.
 Theorem constraint_matches_doc_resizebi_half_pixel_centers_dims : forall ifm ofm half,
   py_nth ifm (-3) <> 0 -> py_nth ifm (-2) <> 0 ->
   constraint_resizebi_half_pixel_centers_dims ifm ofm half = Some (doc_resizebi_half_pixel_centers_dims ifm ofm half).
@@ -117,10 +119,6 @@ Proof. exact ConstraintsProofs.constraint_matches_doc_tconv_valid_partial. Qed.
 Theorem constraint_matches_doc_tconv_valid_refuted : exists sw sh kw kh padding ifm ofm,
   constraint_tconv_valid sw sh kw kh padding ifm ofm = true /\ doc_tconv_valid_literal sw sh kw kh padding ifm ofm = false.
 Proof. exact ConstraintsProofs.constraint_matches_doc_tconv_valid_refuted. Qed.
-(* resize: the constraint function raises instead of answering for a 1xW image with align_corners *)
-Theorem constraint_resize_raises : exists ifm ofm, constraint_resize ifm ofm true = None.
-Proof. exact ConstraintsProofs.constraint_resize_raises. Qed.
-
 (* ---- the sentences the readings were written from are the ones the report prints (modulo digits and spacing) ---- *)
 Theorem documented_sentences_hold :
   says doc_text_constraint_stride_range "Stride values for both width and height must be in the range [, ]"%string /\
